@@ -105,7 +105,19 @@ func gen(t *rapid.T) Case {
 	if c.Rounds > 1 {
 		for i := range c.Endpoints {
 			e := &c.Endpoints[i]
-			if e.Behaviour == "nolistener" || e.Behaviour == "hang" {
+			if e.Behaviour == "hang" {
+				continue
+			}
+			if e.Behaviour == "nolistener" {
+				// connection-level recovery: the address starts listening before the next call
+				if rapid.Bool().Draw(t, fmt.Sprintf("comesUp%d", i)) {
+					e.Later = "sign"
+					e.Certs, e.Comments = []int{i % 6}, []string{"came up"}
+				}
+				continue
+			}
+			if rapid.IntRange(0, 5).Draw(t, fmt.Sprintf("goesDown%d", i)) == 0 {
+				e.Later = "nolistener" // connection-level failure from the second call on
 				continue
 			}
 			switch rapid.IntRange(0, 2).Draw(t, fmt.Sprintf("later%d", i)) {
@@ -170,6 +182,9 @@ func exec(c Case) (vh.Outcome, error) {
 	seen := make([]int, len(c.Endpoints)) // calls already attributed per endpoint
 	for round := 0; round < rounds; round++ {
 		g.SetRound(round)
+		if g.LateFailed {
+			return out, nil // infrastructure: the address of a late-starting endpoint was taken meanwhile
+		}
 		// behaviours of this round
 		cur := make([]Endpoint, len(c.Endpoints))
 		copy(cur, c.Endpoints)
@@ -311,7 +326,7 @@ func behaviours(c Case) []string {
 	return b
 }
 
-const rule = "endpoint lists of length 0..4 over 127.0.0.2..5 sharing one port, served by real gRPC-over-TLS Signing servers; per endpoint: signs 1..3 certificates with comment shapes (none, one word, several words, non-ASCII, a key-type look-alike), RPC error with any status code 1..16, empty key text, unparsable key text, no listener, hangs past the per-try deadline (rare); real crypki.NewSigner with real TLS material, retries = 1; 1..3 Sign calls on the same Signer, with endpoints recovering or starting to fail after the first call; a tenth of the cases enter Sign with a cancelled or expired context (deadline failure of every endpoint); request fields generated (principals, KeyID, validity, identifier, extensions, critical options). Oracle: contacted = the prefix up to and including the first signing endpoint, in order, each once, each receiving a request proto.Equal to the input; result = that endpoint's certificates and comments, same length, CA order; no signing endpoint or an empty list => non-nil error, never (nil, nil, nil). Non-trivial: a failing endpoint before a signing one, or all failing."
+const rule = "endpoint lists of length 0..4 over 127.0.0.2..5 sharing one port, served by real gRPC-over-TLS Signing servers; per endpoint: signs 1..3 certificates with comment shapes (none, one word, several words, non-ASCII, a key-type look-alike), RPC error with any status code 1..16, empty key text, unparsable key text, no listener, hangs past the per-try deadline (rare); real crypki.NewSigner with real TLS material, retries = 1; 1..3 Sign calls on the same Signer, with endpoints recovering or starting to fail after the first call, at RPC level (status code) and at connection level (an address without listener starts listening; a listening one goes away); a tenth of the cases enter Sign with a cancelled or expired context (deadline failure of every endpoint); request fields generated (principals, KeyID, validity, identifier, extensions, critical options). Oracle: contacted = the prefix up to and including the first signing endpoint, in order, each once, each receiving a request proto.Equal to the input; result = that endpoint's certificates and comments, same length, CA order; no signing endpoint or an empty list => non-nil error, never (nil, nil, nil). Non-trivial: a failing endpoint before a signing one, or all failing."
 
 func TestC17Failover(t *testing.T) {
 	vh.Run(t, vh.Spec[Case]{Property: "C17", Name: "TestC17Failover", Rule: rule, Gen: gen, Exec: exec})
